@@ -54,6 +54,12 @@ CLAIMED = {
         "Spec-free: only compares the library with itself. Error identity = (code, Display text).",
         "DESIGN.md section 3, C13",
     ),
+    "C14": (
+        "runtime monitor: letter-vs-emitted-tag oracle over 25 families x 27 letters x valid and ambiguous contents; concrete per-option parsers as referees for the heuristic parse; every letter at every multi-option message position",
+        "Exploration: every multi-option family with every letter A-Z (and none) on contents valid for some option of the field number, including deliberately ambiguous ones: an accepted value must serialise under the letter it was parsed with, undocumented letters must not be converted, the heuristic parse must return an option whose own parser accepts the content and that is stable under re-parsing; at message level every letter at every multi-option position of maximal generated messages must be preserved or rejected.",
+        "Spec-free core (the letter itself); documented options per family restated from the enum documentation.",
+        "DESIGN.md section 3, C14",
+    ),
     "C15": (
         "runtime monitor: exact JSON comparison over the real generate/publish/validate/parse plugin pipeline on every shipped scenario x N seeded draws",
         "Exploration: every scenario file found at run time is drawn 300 (quick) / 5000 (thorough) times through the real datafake generator and the real plugin handlers; the parsed JSON must equal the generated JSON exactly (no rounding), validation must report no error.",
